@@ -1,6 +1,7 @@
 package props
 
 import (
+	"sort"
 	"fmt"
 	"math/big"
 	"strconv"
@@ -22,7 +23,7 @@ func init() {
 			"SIGNED-SPAN what the server sends is B | Sign(B[2:], static key) for the very B sent, i.e. the signature covers exactly the span the client verifies; AUTH every return of the client parser with a nil error is dominated by: the freshness test (equivalent to |now - t| <= 86400 for clocks at least one day after the epoch), glow.Verify(contacted server's key, reply[:len-64], reply[len-64:]), " +
 			"reply key == the device's own public key, (new GCA == 0) or glow.Verify(current GCA, 'EquipmentMigration' | key | reply[540:len-136], reply[len-136:len-72]), and, for every parsed server entry, glow.Verify(new GCA if present else current GCA, entry.SigningBytes(), entry.GCAAuthorization); " +
 			"PURE the parser has no write effect on the client's state, and the caller uses its results only on the err == nil edge (C17). " +
-			"every entry of the server list is appended to the reply on every path through the server loop (banned ones included) and the fields of an entry are written and read in the same order, width and byte order; on the client no path through the verification loop avoids the per-entry Verify and the loop is left only at its end or with an error. NOT decided: behaviour for replies longer than the 16-bit length prefix allows (server-side truncation of the length; noted), cryptographic strength.",
+			"every entry of the server list is appended to the reply on every path through the server loop (banned ones included) and the fields of an entry are written and read in the same order, width and byte order; on the client no path through the verification loop avoids the per-entry Verify and the loop is left only at its end or with an error. the window offset and the slots the bitfield summarises are read in one critical section; listed entries are GCA-signed wholes (C17 list rules re-run: no field of a listed entry is changed in place). NOT decided: behaviour for replies longer than the 16-bit length prefix allows (server-side truncation of the length; noted), cryptographic strength.",
 		Assumptions: append([]string{"glow.Verify is sound (trusted)", "the system clock is at least one day after the Unix epoch (so now-86400 does not wrap in uint64)"}, baseAssumptions...),
 		Run:         runC10,
 	})
@@ -46,6 +47,79 @@ func runC10(c *an.Ctx) {
 	}
 	replyLayout(c, parser, respBuf)
 	bitOrder(c)
+	// "the reply carries the server's data": the listed entries are GCA-signed wholes (rules owned by C17), and the
+	// window offset and the slots the bitfield is built from are read in ONE critical section of GCAServer.mu
+	serverListAuth(c)
+	replyOneState(c)
+}
+
+// replyOneState: in the sync handler (and a bitfield helper it calls), every read of the report arrays and the read of
+// the window offset happen with GCAServer.mu held, between the same Lock and Unlock.
+func replyOneState(c *an.Ctx) {
+	p := c.P
+	h, _ := tcpRoot(p)
+	if h == nil {
+		return
+	}
+	handler := firstRepoCallee(p, h)
+	if handler == nil {
+		handler = h
+	}
+	fi := p.Info(handler)
+	lf := p.LockFlowOf(handler)
+	section := func(at ssa.Instruction) string {
+		var ids []string
+		for d := range fi.ReachingAt(at) {
+			if d.Havoc && d.Cls.Root == "T:GCAServer" {
+				ids = append(ids, d.ID)
+			}
+		}
+		sort.Strings(ids)
+		return strings.Join(ids, ",")
+	}
+	sec := ""
+	ok := true
+	why := ""
+	n := 0
+	note := func(at ssa.Instruction, what string) {
+		n++
+		if !an.Held(lf.StateAt(at, "GCAServer.mu")) {
+			ok = false
+			why = what + " at " + p.Pos(at.Pos()) + " is outside the critical section"
+			return
+		}
+		s := section(at)
+		if sec == "" {
+			sec = s
+		} else if s != sec {
+			ok = false
+			why = what + " at " + p.Pos(at.Pos()) + " is in a different critical section than the other reads"
+		}
+	}
+	for _, a := range p.AccessesOf(handler) {
+		f, isF := a.Cls.FieldOf("GCAServer")
+		if !isF || a.Write {
+			continue
+		}
+		if f == "equipmentReportsOffset" || (f == "equipmentReports" && len(a.Cls.Path) >= 2) {
+			note(a.Instr, "read of "+a.Cls.String())
+		}
+	}
+	// a helper that is handed the report array: its call must be in the same section
+	for _, b := range handler.Blocks {
+		for _, in := range b.Instrs {
+			if call, okc := in.(*ssa.Call); okc {
+				if sc := call.Call.StaticCallee(); sc != nil && sc.Pkg == handler.Pkg {
+					for _, a := range call.Call.Args {
+						if f, isF := fi.RefClass(a).FieldOf("GCAServer"); isF && f == "equipmentReports" {
+							note(call, "call of "+an.FuncName(sc)+" on the report array")
+						}
+					}
+				}
+			}
+		}
+	}
+	c.Check(ok && n >= 2, "CODEC", handler, handler.Pos(), an.KeyOf(handler, "reply-one-state"), "the window offset and the report slots that the bitfield summarises are read in one critical section of GCAServer.mu: bit i describes timeslot offset+i of one server state", fmt.Sprintf("%d reads; %s", n, why))
 }
 
 // parserAcceptance: the client's sync parser accepts a reply only when it is
